@@ -14,7 +14,8 @@ CHECKS = {
         "diagonal non-negative D, rank(D) = rank over Q, termination of both loops (fuel never exhausted), and the supercell coset "
         "theorem. The model is tied to the Rust code by exact equality of every output factor on an exhaustive 3x3 box and on "
         "random / harvested systems of the shapes the library uses; a disagreement triggers the Lean C15 oracle on the "
-        "implementation's own outputs to look for a failing matrix."),
+        "implementation's own outputs to look for a failing matrix. The consequence for supercells (theorem supercell_cosets) is tied to the code by running Transformation::transform_cell on every "
+        "3x3 matrix with entries in [-2,2] (thorough [-3,3]) and 1 <= det <= 64: det pairwise distinct sites."),
   design_ref="DESIGN.md §3 C15",
   note=("Trusted: Lean kernel + {propext, Classical.choice, Quot.sound}; hand-written model (tie = differential test, exhaustive only on "
         "the 3x3 boxes); Rust i32 modelled as unbounded Int (no wrap is observed through exact equality, not proved)."),
